@@ -260,6 +260,9 @@ def main(tier):
     for ctor, a in m.tb.eval_arms().items():
         ncast += cast_guard_rule(run, a["term"], "%s arm %s" % (W, ctor), "arm|%s" % ctor)
     run.coverage_extra["guarded_f64_to_i64_casts_in_eval"] = ncast
+    # the statement is about expressions: their value is that of the standard tree (C04's tables as a premise)
+    from .c04 import precedence_tables
+    precedence_tables(run, F, {"eval_number": m}, PID)
     report_issues(run, {"eval_number": m}, tables={"T_eval", "T_prim", "T_lex"})
     run.floor("obligations", run.obligations, 40)
     return run.finish("partial evaluation of each operator arm for every (Integer|Float) operand combination, residual tree compared with the reference; cast-guard rule with folded constants", "./check C09 --tier %s" % tier)
